@@ -18,7 +18,7 @@ func init() {
 			"R4 dangling separator: a constant piece beginning or ending with ',' next to sqlJoin(x.F, …) is guarded when N.F may be empty; " +
 			"R5 token gluing: an operator printed directly in front of an operand whose SQL may start with the same character ('-' '-') forms a different token. " +
 			"C04 (SQL() total), C07 (parentheses) and C15 (quoting) cover other necessary conditions. Does not decide: ordering of the printed pieces, nested interactions, equality of the two trees.",
-		Rules: []ruleFn{ruleC01R1, ruleC01R2, ruleC01R3, ruleC01R4, ruleC01R5, ruleC01R6, ruleC02R4, ruleC15R1, ruleC07R2, ruleC07R4, ruleC14R2, ruleC01R7, ruleC05R6, ruleC14R11, ruleC01R8, ruleC16R2, ruleC15R3, ruleC15R4, ruleC15R6},
+		Rules: []ruleFn{ruleC01R1, ruleC01R2, ruleC01R3, ruleC01R4, ruleC01R5, ruleC01R6, ruleC02R4, ruleC15R1, ruleC07R2, ruleC07R4, ruleC14R2, ruleC01R7, ruleC05R6, ruleC14R11, ruleC01R8, ruleC16R2, ruleC15R3, ruleC15R4, ruleC15R6, ruleC02R1, ruleC02R3},
 	})
 }
 
